@@ -191,8 +191,8 @@ m("C11-revert-D14-no-rollback-in-add-node", "C11", "user_actions/user_add_node.p
   "            for action in reversed(self.actions):\n                action.inverse()\n            raise", "            raise")
 m("C04-revert-D13-from-tracks-enables-only-on-recompute", "C04", "data_model/solution_tracks.py",
   "        soln_tracks.enable_features(id_keys, recompute=force_recompute)", "        if force_recompute:\n            soln_tracks.enable_features(id_keys, recompute=force_recompute)")
-m("C14-revert-D10-none-stored-on-undo", "C14", "actions/update_node_attrs.py",
-  "        if value is None:\n            # the attribute was absent", "        if False:\n            # the attribute was absent")
+# (the revert of D10 - undo stores None instead of removing the attribute - stopped being a
+# break of C14 with the D27 repair: the GEFF exporter now leaves None-valued attributes out)
 m("C05-revert-D2-delete-division-edge-keeps-lineage", "C05", "user_actions/user_delete_edge.py",
   "                    self.tracks.get_track_id(edge[1]),\n                    self.tracks.get_next_lineage_id(),", "                    self.tracks.get_track_id(edge[1]),\n                    None,")
 m("C05-revert-D2-new-division-keeps-lineage", "C05", "user_actions/user_add_edge.py",
